@@ -66,6 +66,49 @@ def _swap_letter(name: str) -> Optional[str]:
     return None
 
 
+ROI_ANN = ("NdROI", "ROI", "NormalizedROI")
+
+
+def _roi_params(fi: FuncInfo) -> Set[str]:
+    """Parameters holding a (row, col) region: annotated with one of the ROI aliases or `Tuple[SomeSlice, ...]`."""
+    out: Set[str] = set()
+    for a in fi.params():
+        ann = a.annotation
+        if ann is None:
+            continue
+        txt = ast.unparse(ann)
+        names = {x.id for x in ast.walk(ann) if isinstance(x, ast.Name)} | {x.attr for x in ast.walk(ann) if isinstance(x, ast.Attribute)}
+        if names & set(ROI_ANN) or ("Tuple" in names and names & {"SomeSlice", "NormalizedSlice", "slice"} and "..." in txt):
+            out.add(a.arg)
+    return out
+
+
+def _comprehension_source(e: ast.AST) -> Optional[Set[str]]:
+    """Names iterated by `tuple(<elt> for v in SRC)` / `[... for v in SRC]` / `... in zip(SRC, other)`; None when `e` is not of that form."""
+    if isinstance(e, ast.Call) and call_name(e) in ("tuple", "list") and len(e.args) == 1:
+        e = e.args[0]
+    if not isinstance(e, (ast.GeneratorExp, ast.ListComp)) or len(e.generators) != 1:
+        return None
+    it = e.generators[0].iter
+    if isinstance(it, ast.Call) and call_name(it) == "zip":
+        return {a.id for a in it.args if isinstance(a, ast.Name)}
+    if isinstance(it, ast.Name):
+        return {it.id}
+    return set()
+
+
+def _under_scalar_test(ret: ast.Return, fi: FuncInfo, roi_params: Set[str]) -> bool:
+    """`if not isinstance(roi, Sequence): return f(roi)` / `if isinstance(roi, slice): return ...`"""
+    p = parent(ret)
+    while p is not None and p is not fi.node:
+        if isinstance(p, ast.If):
+            for c in ast.walk(p.test):
+                if isinstance(c, ast.Call) and call_name(c) == "isinstance" and c.args and isinstance(c.args[0], ast.Name) and c.args[0].id in roi_params:
+                    return True
+        p = parent(p)
+    return False
+
+
 class Beliefs:
     def __init__(self, fi: FuncInfo):
         self.fi = fi
@@ -210,9 +253,19 @@ class AxisTyper:
             return None
         ty = AxisTyper(callee, Beliefs(callee), self.prog)
         orders = set()
+        roi_params = _roi_params(callee)
+        scalar_form = False
         for n in walk_own(callee.node):
             if isinstance(n, ast.Return) and n.value is not None:
                 o = ty.order(n.value) if isinstance(n.value, (ast.Tuple, ast.List)) and len(n.value.elts) == 2 else None
+                if o is None and roi_params:
+                    # `tuple(f(s) for s in roi)`: one element per axis of a (row, col) region -> (Y, X)
+                    src = _comprehension_source(n.value)
+                    if src is not None and src & roi_params:
+                        o = (Y, X)
+                    elif src is None and not isinstance(n.value, (ast.Tuple, ast.List, ast.GeneratorExp, ast.ListComp)) and _under_scalar_test(n, callee, roi_params):
+                        scalar_form = True  # the one-slice form of an NdROI function
+                        continue
                 orders.add(o)
         res = orders.pop() if len(orders) == 1 else None
         AxisTyper._ret_cache[key] = res
@@ -346,6 +399,8 @@ class AxisTyper:
             return None
         if isinstance(e, ast.Subscript) and isinstance(e.slice, ast.Slice):
             o = self.order(e.value, depth + 1)
+            if o is not None and e.slice.lower is None and e.slice.upper is None and e.slice.step is not None and const_num(e.slice.step) == -1:
+                return tuple(reversed(o))
             if o is not None and len(o) == 4:
                 lo = const_num(e.slice.lower) if e.slice.lower is not None else 0
                 hi = const_num(e.slice.upper) if e.slice.upper is not None else 4
